@@ -44,6 +44,7 @@ type Contract struct {
 	Lets     map[string]*Sx
 	LetOrder []string
 	Requires []Clause
+	Panics   []Clause // panicsunless: the call panics unless the condition holds
 	Ensures  []Clause
 	Modifies []string
 	HasMod   bool
@@ -285,6 +286,18 @@ func (sp *Spec) LoadContractFile(path, defaultPkg string) error {
 			}
 			c.Lets[parts[0]] = sx
 			c.LetOrder = append(c.LetOrder, parts[0])
+		case "panicsunless":
+			if err := need(); err != nil {
+				return err
+			}
+			sx, err := ParseOne(rest)
+			if err != nil {
+				return fmt.Errorf("%s: %s: %v", path, c.Func, err)
+			}
+			if label == "" {
+				label = fmt.Sprintf("p%d", len(c.Panics)+1)
+			}
+			c.Panics = append(c.Panics, Clause{Label: label, Sx: sx, Src: rest})
 		case "requires", "ensures":
 			if err := need(); err != nil {
 				return err
@@ -382,6 +395,9 @@ func expandImports(s string, imports map[string]string) string {
 // qualifyFunc turns `F`, `(T).M`, `(*T).M`, `alias.F`, `(alias.T).M` into ssa function names.
 func qualifyFunc(name string, imports map[string]string, defaultPkg string) string {
 	name = strings.TrimSpace(name)
+	if strings.HasPrefix(name, "var ") {
+		return "var " + qualifyFunc(name[4:], imports, defaultPkg)
+	}
 	qual := func(id string) string {
 		if i := strings.Index(id, "."); i >= 0 && !strings.Contains(id, "/") {
 			if p, ok := imports[id[:i]]; ok {
